@@ -110,6 +110,29 @@ turned out to be the check's fault; none is listed as a known finding.
   now computed with the library's own envelope encoder.
 * C14: injection right after the handshake (9.2).
 * C15: the harness's own clean-up kills were recorded as observations.
+* C13 (frame unit): a generated garbage body that happened to have the length
+  of the valid envelope was counted as a valid frame ("valid frame not
+  delivered"); validity is now carried by the generator, not inferred from the
+  length.
+* C05 (found by 8 x 1M-case soak runs, 2 cases): ActorOf runs the OnPrelaunch
+  hook before it looks at the name, on the caller's goroutine; a racing spawn
+  under the name of an actor that is being restarted can therefore put its hook
+  between the old life's own OnKilled and the new life's OnRestarted (or between
+  OnRestarted and the restart's own OnPrelaunch). The state machine took that
+  for a new spawn and then reported "OnRestarted before the previous
+  incarnation saw OnKilled". The restart's own hooks are now recognised by the
+  instance they run on; a foreign hook is a late-spawn candidate.
+* C09 "suspended until the decision": (1) an intermediate version of the clause
+  was picked up by a thorough run that was already in progress (the harness is
+  no longer edited while a tier runs); (2) found by the thorough tier: under a
+  one-for-all Restart two rounds can overlap, so an actor that fails in OnLaunch
+  is restarted by the directive of the earlier round (decided before it failed)
+  and the *new* incarnation handles mail before the supervisor is consulted
+  about the launch failure. That is a directive applied to one of its targets,
+  not a failed actor running on; the window now ends at the next OnRestarted /
+  OnLaunch of the actor.
+* world: a gate first reached during clean-up blocked the bubble for ever
+  (gates created during `Close` are created open).
 * C18: the simulation was not a pure function of the case (the library ranges
   over maps, so the creation order of one handler's sends is random): latencies
   and losses became functions of (link, position), simultaneous events are
@@ -166,6 +189,14 @@ its history (checked by replaying both histories with either fix alone).
 | C16-3 | a reader that rejects a legal vector was reported as a harness failure (inconclusive) | it is a verdict of the "survives serialisation" clause |
 | C20-4 | jobs armed by the new life of a restarted actor | every life arms drawn once / loop jobs in its OnLaunch handler (own message id and reference per life) |
 | C03-3 | whether a "stashed" message is really in the stash | white-box stash length for undisturbed actors, stash-burst shape (m stashed, Unstash(n) for every relation of n to m) |
+| C02-5 / C02-7 | stash order of messages that arrived through the scheduler; "system before user" when system messages arrive while user messages are being handled | scheduler-delivered stash messages; own unit `TestC02SystemFirst` (a handler enqueues k system + m user messages to itself or a peer mid-burst) |
+| C03-6 | a zombie that was released must behave like any terminated actor (mail to it is dead-lettered, not swallowed) | released-zombie rule over the lives of a path |
+| C04-6 / C04-7 | Ask without an explicit timeout (system-wide vs per-actor default); a second PipeTo on the same future | default timeouts in the generator and the model, `Pipe2` operation |
+| C05-4 | actors assembled with the library's combination constructors (`NewComplexCombinationActor`, `NewPrelaunchActor`, ...: several hooks, one of them failing) | own unit `combo` over those constructors |
+| C05-5 | a spawn by an actor that is already terminating | `LateSpawn` probes (spawn from the OnKill / OnKilled handler) in C05 |
+| C07-5 / C07-6 | Stop of systems whose Start failed half-way, of cluster members (seed and joining), with stop timeouts shorter than the work | modes no-port / port-in-use / cluster-seed / cluster-joining in the remoting unit, own deadline around Stop (this found KF-C07-4) |
+| C08-7 | the moment the mailbox is re-opened relative to the new life's OnLaunch | the "suspended until the decision" clause is shared by C08 and C09; the seed is caught by C09 (`seeded/CROSS.tsv`), C08's own clauses do not state it |
+| C10-6 | FindActor on the path of a pending Ask (the registry holds futures under the same keys as actors) | `hold` lookups of the senders of pending Asks from every goroutine |
 
 ### 9.5 Known findings (genuine, not repaired) and why they are not small
 
